@@ -309,8 +309,10 @@ func genC01Wide(g *Gen) {
 		n := g.R.Range(0, 12)
 		ws := g.R.Words(n)
 		w := U64s(ws)
+		// (the model walks to word i>>6 in unary, so far-away POSITIVE positions are kept to 2^20 here; the int32
+		// extremes get a handful of cases of their own below)
 		cand := []int{-1, -2, -63, -64, -65, -128, -129, 64 * n, 64*n + 1, 64*n + 63, 64*n + 64, 64*n + 127, 64*n + 128,
-			64*n - 1, 0, 1<<31 - 1, 1<<31 - 64, 1<<31 - 65, -(1 << 31), -(1 << 31) + 63, 1 << 30, -(1 << 30)}
+			64*n - 1, 0, 1<<20 - 1, 1 << 20, 1<<16 - 64, -(1 << 31), -(1 << 31) + 63, -(1 << 31) + 64, -(1 << 30), -(1<<31 - 64)}
 		for q := 0; q < 6; q++ {
 			var i int
 			switch g.R.Intn(3) {
@@ -336,9 +338,6 @@ func genC01Wide(g *Gen) {
 					if i < 64*n+64 {
 						key = fmt.Sprintf("any/f%d/beyond-next-word/par%d", f, n&1)
 					}
-					if i >= 1<<31-64 {
-						key = fmt.Sprintf("any/f%d/wrap", f)
-					}
 				default:
 					if rk := rankKey(ws, i); rk != "" {
 						key = fmt.Sprintf("any/f%d/in", f)
@@ -348,6 +347,20 @@ func genC01Wide(g *Gen) {
 				g.Do("bitmap.Rank/any", L(w, Int(f), Int(i)), key)
 			}
 		}
+	}
+
+	// the int32 extremes: i + 64 wraps for i >= 2^31 - 64 (Rank128 panics on a negative checkpoint index whatever the
+	// bitmap), i >> 6 = 2^25 - 1 is far beyond any bitmap here
+	// (cheap for the model only where the checkpoint index is negative; the other extremes walk 2^24..2^25 words in
+	// unary - about 1 GB and several seconds each - and are left to the thorough tier)
+	type extc struct{ f, i int }
+	ext := []extc{{2, 1<<31 - 1}, {2, 1<<31 - 64}, {2, 1<<31 - 33}}
+	if g.Thorough {
+		ext = append(ext, extc{2, 1<<31 - 65}, extc{0, 1<<31 - 1}, extc{1, 1<<31 - 64}, extc{0, 1 << 30})
+	}
+	for _, e := range ext {
+		g.Stat("any-position-extreme")
+		g.Do("bitmap.Rank/any", L(U64s(g.R.Words(3)), Int(e.f), Int(e.i)), fmt.Sprintf("any/f%d/wrap%v", e.f, e.i >= 1<<31-64))
 	}
 
 	// (W3) the laws at two positions i <= j: equal, adjacent, same word, across words / 128-bit blocks, the last position
